@@ -120,12 +120,14 @@ def run(ctx):
             # queries that return NEW merged lanelets built from a chain of successors / predecessors
             from commonroad.scenario.lanelet import Lanelet as _La
             first, last = net.find_lanelet_by_id(8001), net.find_lanelet_by_id(8003)
-            if first is not None and last is not None:
+            # (scenarios read from the repository's files may use the same ids for lanelets of a large map: only the
+            # harness' own chain / ring are queried with these ranges)
+            if first is not None and last is not None and first.successor == [8002] and last.predecessor == [8002]:
                 _La.all_lanelets_by_merging_successors_from_lanelet(first, net)
                 _La.all_lanelets_by_merging_predecessors_from_lanelet(last, net)
                 _La.merge_lanelets(first, net.find_lanelet_by_id(8002))
             ring = net.find_lanelet_by_id(8101)
-            if ring is not None:
+            if ring is not None and ring.predecessor == [8104] and ring.successor == [8102]:
                 # a closed loop (ring road): the merge goes once around and comes back to where it started
                 _La.all_lanelets_by_merging_successors_from_lanelet(ring, net, max_length=1e4)
                 _La.all_lanelets_by_merging_predecessors_from_lanelet(ring, net, max_length=1e4)
